@@ -28,6 +28,8 @@ func Hostile() {
 	ApiPromiseIds = append(ApiPromiseIds, "a", "c")
 	// look-alikes: "P1" equals "p1" up to case, "p_" matches "p0" and "p1" as a LIKE pattern — ids are compared exactly
 	ApiPromiseIds = append(ApiPromiseIds, "P1", "p_")
+	// ids are opaque: path-looking ids with empty or dot segments are not "cleaned" anywhere
+	ApiPromiseIds = append(ApiPromiseIds, "x//y", "x/./y")
 	SubIds = append(SubIds, "c")
 }
 
